@@ -90,7 +90,7 @@ m("c19-attr-error-no-where", "C19", "daemon/config/mapping.py", "               
 m("c14-direction-inverted", "C14", "daemon/core/config.py", "        plugin.section: set(plugin.after) for plugin in plugins.values()", "        plugin.section: set(plugin.before) for plugin in plugins.values()")
 m("c14-before-ignored", "C14", "daemon/core/config.py", "            dependencies.setdefault(before, set()).add(plugin.section)", "            dependencies.setdefault(before, set())")
 m("c14-unknown-check-late", "C14", "daemon/config/mapping.py",
-  "    if unmatched:\n        raise ConfigurationError(\n            where=\"root\", what=\"unknown config sections %s\" % \", \".join(unmatched)\n        )\n    content = {}",
+  "    if unmatched:\n        raise ConfigurationError(\n            where=\"root\",\n            what=\"unknown config sections %s\" % \", \".join(map(repr, unmatched)),\n        )\n    content = {}",
   "    content = {}")
 m("c14-required-ignored", "C14", "daemon/config/mapping.py", "            if plugin.required:", "            if plugin.required and False:")
 m("c14-none-kept", "C14", "daemon/config/mapping.py", "            if plugin_content is not None:", "            if True:")
@@ -239,7 +239,7 @@ m("c12-shutdown-skips-stop", "C12", "daemon/runners/service.py", "        self._
 m("c18-f12-f16-revert", "C18", "daemon/core/config.py", "        self._check_tags(node)\n", "        pass\n")
 m("c18-check-skips-sequences", "C18", "daemon/core/config.py", "                pending.extend((item, False) for item in node.value)", "                pass")
 # (not checking mapping keys up front would be an equivalent change: PyYAML constructs every key through construct_object)
-m("c03-f13-revert", "C03", "daemon/runners/service.py", "            if _service_declaration(cls) is __new_service__:", "            if True:")
+m("c03-f13-revert", "C03", "daemon/runners/service.py", "                _service_declaration(cls) is __new_service__\n                and getattr(self, \"__service_unit__\", None) is None", "                True")
 # (F14 has no revert mutant: the lost interrupt shows in about one run of 300 on a loaded machine only; its scenario is kept
 #  under regressions/C02 and was stressed by hand, 480 runs, when the repair was made)
 
@@ -249,3 +249,5 @@ m("c04-f17-revert", "C04", "interfaces/_partial.py", "def __init__(self, ctor: T
 m("c10-f18-revert", "C10", "daemon/runners/service.py", "def execute(self, payload, /, *args, flavour: ModuleType, **kwargs):", "def execute(self, payload, *args, flavour: ModuleType, **kwargs):")
 m("c03-f18-revert", "C03", "daemon/runners/service.py", "def adopt(self, payload, /, *args, flavour: ModuleType, **kwargs):", "def adopt(self, payload, *args, flavour: ModuleType, **kwargs):")
 m("c04-f19-revert", "C04", "daemon/runners/service.py", "        while hasattr(constructor, \"__service_flavour__\"):", "        while False:")
+m("c03-f21-revert", "C03", "daemon/runners/service.py", "                and getattr(self, \"__service_unit__\", None) is None\n", "")
+m("c14-f20-revert", "C14", "daemon/config/mapping.py", "\", \".join(map(repr, unmatched))", "\", \".join(unmatched)")
